@@ -33,7 +33,16 @@ def canon_tokens(line, model):
     """K tokens differ by construction (implementation: checksum value; model: the hashed bytes): map both to the
     checksum value through the independent XXH64"""
     out = []
+    skipping = False
     for t in line.split():
+        # after an error the frame is lost and what the decoder then reports is unspecified (and the two sides
+        # have consumed different amounts of the source): compare again from the next `src=` marker on
+        if t == '|':
+            skipping = False
+        if skipping:
+            continue
+        if (t.endswith(':err') or t.endswith(':panic') or t.endswith(':err-vector-changed')) and t[0] in 'IBFSA':
+            skipping = True
         if t.startswith('K:'):
             v = t[2:]
             if model:
